@@ -211,14 +211,29 @@ pub fn check_classification(p: &Program, tree: &sv::SyntaxTree, text: &str) -> R
 
 /// Oracle (4): an enum node that consists of nothing but one keyword is the variant named after that keyword
 /// (`chandle` -> DataType::Chandle, `join_any` -> JoinKeyword::JoinAny, `ns` -> TimeUnit::NS): compared without
-/// case and underscores; terminals that are not words ("$", "1step", "\"DPI-C\"") have spelled-out variant names
-/// and are left aside.
+/// case and underscores; of the terminals that are not words only "+", "-", "$" and ";" (Plus, Minus, Dollar, Empty)
+/// are checked, the others ("1step", "\"DPI-C\"", ".*", "#0") have spelled-out variant names and are left aside.
 pub fn check_keyword_variants(tree: &sv::SyntaxTree, text: &str) -> Result<usize, (String, serde_json::Value)> {
     let norm = |s: &str| s.chars().filter(|c| *c != '_').map(|c| c.to_ascii_lowercase()).collect::<String>();
     let mut n = 0;
     for (kind, variant, word, offset) in sv::keyword_variants(tree, text) {
         let wordlike = word.chars().next().map(|c| c.is_ascii_alphabetic() || c == '_').unwrap_or(false) && word.chars().all(|c| c.is_ascii_alphanumeric() || c == '_');
         if !wordlike {
+            // a few symbol-only variants have conventional names (Sign::Plus, NextState::Minus, Primary::Dollar)
+            let names: &[&str] = match word {
+                "+" => &["plus"],
+                "-" => &["minus"],
+                "$" => &["dollar"],
+                ";" => &["empty"],
+                _ => continue,
+            };
+            n += 1;
+            if !names.contains(&norm(&variant).as_str()) {
+                return Err((
+                    format!("symbol {:?} at {} is classified as {}::{}", word, offset, kind, variant),
+                    json!({"symbol": word, "offset": offset, "kind": kind, "variant": variant}),
+                ));
+            }
             continue;
         }
         n += 1;
